@@ -349,9 +349,18 @@ fn path_value(input: &[u8]) -> IResult<&[u8], PathValue<'_>> {
         map(terminated(i64, not(one_of(".eE"))), |v| {
             PathValue::Number(Number::Int64(v))
         }),
-        map(double, |v| PathValue::Number(Number::Float64(v))),
+        map(float, |v| PathValue::Number(Number::Float64(v))),
         map(string, PathValue::String),
     ))(input)
+}
+
+// `double` fails without backtracking if an exponent has no digits,
+// turn it into a recoverable error to let other alternatives be tried, e.g. the name `1e`.
+fn float(input: &[u8]) -> IResult<&[u8], f64> {
+    double(input).map_err(|err| match err {
+        nom::Err::Failure(e) => nom::Err::Error(e),
+        err => err,
+    })
 }
 
 fn inner_expr(input: &[u8], root_predicate: bool) -> IResult<&[u8], Expr<'_>> {
